@@ -100,6 +100,7 @@ struct Sched {
 };
 
 Sched S;
+char g_threadExitTag;   // ThreadSanitizer: released by every simulated thread as it ends (sim::hb_acquire_thread_exits)
 thread_local SimThread* tl_self = nullptr;
 FatalHandler g_fatal = nullptr;
 
@@ -299,6 +300,7 @@ void* trampoline(void* p) {
   t->st = SimThread::RUN;
   t->ret = t->start(t->arg);
   void* r = t->ret;
+  if (__tsan_release) __tsan_release(&g_threadExitTag);
   finish_thread(t);
   return r;
 }
@@ -511,6 +513,9 @@ void hb_release(const void* tag) {
 }
 void hb_acquire(const void* tag) {
   if (__tsan_acquire) __tsan_acquire(const_cast<void*>(tag));
+}
+void hb_acquire_thread_exits() {
+  if (__tsan_acquire) __tsan_acquire(&g_threadExitTag);
 }
 
 int spawn(const char* role, std::function<void()> fn) {
